@@ -38,9 +38,15 @@ pub struct LengthError;
 pub trait ForeignIter<T> {
     spec fn returned(&self) -> Seq<Option<T>>;
     spec fn hint(&self) -> (usize, Option<usize>);
+    // whatever the iterator's owner needs preserved across polls, and ghost data that stays fixed (used by the closure
+    // conversion of lazy adapter pipelines, rule R-pipe; an opaque caller-supplied iterator may choose `true` / `()`)
+    spec fn inv(&self) -> bool;
+    type K;
+    spec fn konst(&self) -> Self::K;
     fn next(&mut self) -> (r: Option<T>)
-        ensures final(self).returned() == old(self).returned().push(r), final(self).hint() == old(self).hint();
-    fn size_hint(&self) -> (r: (usize, Option<usize>)) ensures r == self.hint();
+        requires old(self).inv(),
+        ensures final(self).inv(), final(self).konst() == old(self).konst(), final(self).returned() == old(self).returned().push(r);
+    fn size_hint(&self) -> (r: (usize, Option<usize>)) requires self.inv(), ensures r == self.hint();
 }
 pub open spec fn polled_after_none<T>(s: Seq<Option<T>>) -> bool {
     exists|i: int| 0 <= i < s.len() - 1 && (#[trigger] s[i]).is_none()
